@@ -6,7 +6,7 @@
      M id fx fuel  x y hw hh  n x0 y0 ... k i0 i1 ...  m th0 ...  r q0 ...  full
         build init(root), insert the k indices in order with the extracted `insert fx fuel`,
         dump the tree, is_correct, all_indices, depth; for every theta and query index print the
-        preorder numbers of the cells forces_cells lists (and with full=1 the exact result of
+        preorder numbers of the cells the extracted forces_subtrees lists (and with full=1 the exact result of
         `forces` from the accumulator (0,0,0)).
      S id  n x0 y0 ...  k i0 ...  <tree>
         <tree> = preorder cells  "L x y hw hh j cnt cum cx cy" | "N x y hw hh cum cx cy" + 4 subtrees
@@ -76,6 +76,27 @@ let rec dump_tree t =
 
 let zero = { qnum = Z0; qden = XH }
 
+(* preorder numbers (as the two dumps number the cells) of the subtrees returned by the extracted forces_subtrees.
+   The list is in preorder and its elements are physically the subtrees of t, so one synchronized walk suffices;
+   a summarised subtree is not entered.  (forces_cells computes the same numbers in Coq with Peano naturals, cubic
+   in the depth: QuadTree_Proof_Theta.forces_subtrees_cells relates the two lists.) *)
+let ids_of_subtrees t subs =
+  let rest = ref subs and out = ref [] and n = ref 0 in
+  let rec size t = match t with
+    | Leaf _ -> 1
+    | Node (_, _, _, a, b, c, d) -> 1 + size a + size b + size c + size d in
+  let rec walk t =
+    let me = !n in
+    match !rest with
+    | s :: tl when s == t -> out := me :: !out; rest := tl; n := !n + size t
+    | _ ->
+      (match t with
+       | Leaf _ -> incr n
+       | Node (_, _, _, a, b, c, d) -> incr n; walk a; walk b; walk c; walk d) in
+  walk t;
+  (match !rest with [] -> () | _ -> failwith "forces_subtrees: list is not a preorder sublist of the tree");
+  List.rev !out
+
 let () =
   try
     while true do
@@ -128,8 +149,8 @@ let () =
                     | None -> Printf.printf "G %d %d OOB\n" ti qi
                     | Some p ->
                       Printf.printf "G %d %d" ti qi;
-                      List.iter (fun ((id, _), _) -> Printf.printf " %d" (int_of_nat id))
-                        (forces_cells p (nat_of_int qi) th O t);
+                      List.iter (fun id -> Printf.printf " %d" id)
+                        (ids_of_subtrees t (forces_subtrees p (nat_of_int qi) th t));
                       print_newline ();
                       if full then
                         (match forces data (nat_of_int qi) th t ((zero, zero), zero) with
